@@ -52,6 +52,7 @@ def routes(S, name, fns):
     S.require(name + ":routes-agree", len(kinds) == 1,
               "routes disagree: " + "; ".join(f"{l}:{k}:{str(v)[:60]}" for l, k, v in outs))
     if kinds == {"raise"}:
+        S.note(f"raised:{name}:{outs[0][2][:40]}")
         return None, []
     return outs[0][2], [v for _, _, v in outs[1:]]
 
@@ -184,8 +185,8 @@ def body_binary(S, spec):
         got = f(x, y)
     except zt.Abort:
         raise
-    except Exception:
-        S.note("raised")
+    except Exception as e:
+        S.note(f"raised:{op}:{type(e).__name__}")
         return
     expect_coords(S, op, got, ref)
     if S.mode == "sym" and ref:
@@ -283,8 +284,8 @@ def body_vector(S, spec):
         got = lib()
     except zt.Abort:
         raise
-    except Exception:
-        S.note("raised")
+    except Exception as e:
+        S.note(f"raised:{op}:{type(e).__name__}:{str(e)[:40]}")
         return
     if op == "clip":
         lo, hi = spec.get("lo", -0.5), spec.get("hi", 0.5)
